@@ -919,7 +919,8 @@ def run(tier):
     # ---- 2 kernels
     reqs = corpus.quick_requests()
     if tier == "quick":
-        reqs = reqs[::3]
+        # the back ends see statements, not expression shapes: a sixth of the expression sweep is enough here
+        reqs = corpus.quick_requests(expressions=False)[::3] + corpus.expression_sweep_requests()[::6]
     else:
         reqs = corpus.thorough_requests(seed, per_shape=6, per_shape3=3)
     reqs = reqs + [Request.make(a, f) for a, f in KERNEL_REQUESTS_EXTRA]
